@@ -55,6 +55,10 @@ impl<'a> FreeVariableCollector<'a> {
         for term in &chain.terms {
             self.visit_term(term);
         }
+        // The binding form `pattern = chain` can pin existing variables too (`&x = ~`).
+        if let Some(pattern) = &chain.match_pattern {
+            self.visit_match(pattern);
+        }
     }
 
     fn visit_term(&mut self, term: &ast::Term) {
